@@ -7,6 +7,7 @@ import Driver.Sizes
 import Driver.Golden
 import Driver.OsFs
 import Driver.Conc
+import Driver.Crash
 open Driver
 
 def runStateless (f : String → String) : IO Unit := do
@@ -35,5 +36,6 @@ def main (args : List String) : IO UInt32 := do
   | ["golden"] => runStateless goldenLine; return 0
   | ["fsdur"] => runStateless osfsLine; return 0
   | ["conc"] => runStateless concLine; return 0
+  | ["crash"] => runStateful ({} : CrashSt) crashLine; return 0
   | ["segment"] => runStateful ({} : SegSt) segLine; return 0
   | _ => IO.eprintln "usage: driver <suite>"; return 2
